@@ -5,7 +5,9 @@
    cmd    writer output of a command through parse_command           -> model Model.parse_command_str, oracle: the same command
    script lines through read_command until EOF / panic / hang        -> model Model.read_command, oracle: every command delivered, no panic, no hang
    gua    a get-unsat-assumptions answer                              -> model Model.parse_unsat_assumptions_str, oracle: the listed terms
-   R = (ok E) | (err "..") | (panic "loc"). *)
+   R = (ok E) | (err "..") | (panic "file:line" "message").
+   Finding keys are semantic: a panic is keyed by WHAT panicked (class of the message / the module), never by file:line; the location
+   and the message are in the detail field. *)
 open Model
 open Conv
 
@@ -35,6 +37,7 @@ let ires_of (f : Sexp.t list -> 'a) (x : Sexp.t) : 'a ires =
   | Sexp.List (Sexp.Atom "ok" :: rest) -> IOk (f rest)
   | Sexp.List [Sexp.Atom "err"; m] -> IErr (Sexp.atom m)
   | Sexp.List [Sexp.Atom "panic"; l] -> IPanic (Sexp.atom l)
+  | Sexp.List [Sexp.Atom "panic"; l; m] -> IPanic (Sexp.atom l ^ " | " ^ Sexp.atom m)
   | Sexp.List [Sexp.Atom "hang"] -> IHang
   | Sexp.List [Sexp.Atom "eof"] -> IEof
   | _ -> raise (Sexp.Parse_error ("impl result " ^ Sexp.to_string x))
@@ -101,25 +104,17 @@ let expr_matches_sval (rho : env) (e : expr) (v : sval) : bool =
        let g = earr rho e in
        List.for_all (fun k -> f k = g k) idx)
 
-(* panics are keyed by what panicked, not by the line number alone *)
+(* panics are keyed by what panicked: the class of the panic message and the module (never a line number).
+   [loc] = "file:line | message" *)
 let panic_class (loc : string) : string =
-  let has sub = try ignore (Str.search_forward (Str.regexp (Str.quote sub ^ "\\($\\|[^0-9]\\)")) loc 0); true with Not_found -> false in
-  let at lines = List.exists (fun l -> has (Printf.sprintf "smt/parser.rs:%d" l)) lines in
-  (* line numbers of smt/parser.rs: of /repo (Cur), of /repo with patches/0003..0015 applied in order (Fix) *)
-  let (eot, lexend, comment, strlit, skip, expect, builders) =
-    match code_variant with
-    | Cur -> ([247], [1072], [1043], [235], [545], [360], [667; 453; 467; 182; 131])
-    | Fix -> ([], [], [], [], [], [], [702; 479; 493; 131]) in
-  if at eot then "end-of-tokens"
-  else if at lexend then "lexer-end-of-input"
-  else if at comment then "empty-comment"
-  else if at strlit then "string-literal"
-  else if at skip then "skip-expr-underflow"
-  else if at expect then "expect-on-parse-error"
-  else if at builders then "builder-assertion"
-  else if has "expr/context.rs" then "builder-assertion"
-  else if has "expr/types.rs" then "builder-assertion"
-  else loc
+  let has sub = try ignore (Str.search_forward (Str.regexp_string sub) loc 0); true with Not_found -> false in
+  if has "assertion" || has "unwrap()" then "builder-assertion"                  (* debug_assert! / assert! / get_bv_type(..).unwrap() of a Context builder or of the parser: an operand is not what the builder demands *)
+  else if has "expr/context.rs" || has "expr/types.rs" || has "expr/nodes.rs" then "builder-assertion"   (* unwrap of get_bv_type .. on the wrong kind of operand *)
+  else if has "not yet implemented" then "todo"
+  else if has "failed to parse command" then "expect-on-parse-error"
+  else if has "attempt to" && has "overflow" then "arithmetic-overflow"
+  else if has "out of range" || has "slice index" || has "byte index" then "slice-out-of-range"
+  else "other"
 let panic_key (prefix : string) (loc : string) = prefix ^ ":panic:" ^ panic_class loc
 
 (* the reference reading of the first complete S-expression of a text (what precedes trailing material) *)
@@ -199,7 +194,7 @@ let handle_rt id fs =
       | IErr _ -> if numeral_sym then "rt:numeral-named-symbol-hides-index" else "rt-rejected:" ^ op
       | IPanic l -> panic_key "rt" l
       | _ -> "rt:?" in
-    result ~id ~status:"fail" ~key ~detail:(Printf.sprintf "impl=%s text=%s%s" (match impl with IOk x -> show_expr x | IErr m -> "err " ^ m | _ -> cls_name impl) text
+    result ~id ~status:"fail" ~key ~detail:(Printf.sprintf "impl=%s text=%s%s" (match impl with IOk x -> show_expr x | IErr m -> "err " ^ m | IPanic l -> "panic at " ^ l | _ -> cls_name impl) text
                                               (if corr then "" else " ALSO-DIFF model=" ^ pres_name model)) ()
   end
 
@@ -223,7 +218,7 @@ let handle_text id fs =
         (match impl with
          | IErr _ -> `Ok "malformed:err"
          | IOk e -> `Fail ("malformed-accepted:" ^ origin, show_expr e)
-         | IPanic l -> `Fail (panic_key "malformed" l, "")
+         | IPanic l -> `Fail (panic_key "malformed" l, "panic at " ^ l)
          | _ -> `Ok "?")
     | Some t ->
         let g = ctx_of st in
@@ -237,8 +232,9 @@ let handle_text id fs =
                    | Some v -> expr_matches_sval rho e' v
                    | None -> false) [1; 2; 3] in
                if ok then `Ok "wellformed:ok" else `Fail ("wrong-value:" ^ origin, show_expr e')
-         | Some _, IPanic l -> `Fail (panic_key "wellformed" l, "")
+         | Some _, IPanic l -> `Fail (panic_key "wellformed" l, "panic at " ^ l)
          | Some _, _ -> `Ok ("wellsorted:" ^ cls_name impl)
+         | None, IPanic l -> `Fail (panic_key "illsorted" l, "panic at " ^ l)     (* balanced, but not well-sorted: an error, never a panic *)
          | None, _ -> `Ok ("illsorted:" ^ cls_name impl))
   in
   match verdict with
@@ -267,7 +263,7 @@ let handle_val id fs =
   let model = parse_get_value_response_str (s2c response) in
   let corr = corr_expr impl model in
   let corr_detail = if corr then "" else
-      Printf.sprintf "impl=%s model=%s response=%s" (match impl with IOk x -> show_expr x | IErr m -> "err " ^ m | _ -> cls_name impl)
+      Printf.sprintf "impl=%s model=%s response=%s" (match impl with IOk x -> show_expr x | IErr m -> "err " ^ m | IPanic l -> "panic at " ^ l | _ -> cls_name impl)
         (match model with POk m -> show_expr m | m -> pres_name m) response in
   let empty : smodel = fun _ -> None in
   let rho = env_of_seed 1 in
@@ -279,19 +275,19 @@ let handle_val id fs =
              (match impl with
               | IOk e' -> if expr_matches_sval rho e' sv then `Ok "value:ok" else `Fail ("value-wrong:" ^ via, show_expr e')
               | IErr m -> if in_value_grammar [] v then `Fail ("value-rejected:" ^ via, m) else `Ok "value:outside-grammar:err"
-              | IPanic l -> `Fail (panic_key "value" l, "")
+              | IPanic l -> `Fail (panic_key "value" l, "panic at " ^ l)
               | _ -> `Ok "?")
          | None ->
              (* not a value for the reference (ill-sorted, unknown symbol, lambda ...) *)
              (match impl with
               | IOk e' -> `Ok "value:not-evaluable:ok"
-              | IPanic l -> `Ok ("value:not-evaluable:panic@" ^ l)
+              | IPanic _ -> `Ok "value:not-evaluable:panic"
               | _ -> `Ok "value:not-evaluable:err"))
     | Some _ ->
         (* one S-expression, but not of the shape ((term value)) *)
         (match impl with
          | IOk e' -> `Fail ("response-shape-accepted:" ^ via, show_expr e')
-         | IPanic l -> `Fail (panic_key "malformed" l, "")
+         | IPanic l -> `Fail (panic_key "malformed" l, "panic at " ^ l)
          | _ -> `Ok "response:bad-shape:err")
     | None ->
         (match impl with
@@ -304,7 +300,7 @@ let handle_val id fs =
                    | None -> `Ok "response:trailing-material-ignored:not-evaluable"
                    | _ -> `Fail ("malformed-response-accepted:" ^ via, show_expr e'))
               | _ -> `Fail ("malformed-response-accepted:" ^ via, show_expr e'))
-         | IPanic l -> `Fail (panic_key "malformed" l, "")
+         | IPanic l -> `Fail (panic_key "malformed" l, "panic at " ^ l)
          | _ -> `Ok "response:malformed:err")
   in
   match verdict with
@@ -352,7 +348,7 @@ let handle_cmd id fs =
       | IErr _, PErr | IPanic _, PPanic -> true
       | _ -> false in
     let corr_detail = if corr then "" else
-        Printf.sprintf "impl=%s model=%s text=%s" (match impl with IOk x -> sexp_of_cmd x | IErr m -> "err " ^ m | _ -> cls_name impl)
+        Printf.sprintf "impl=%s model=%s text=%s" (match impl with IOk x -> sexp_of_cmd x | IErr m -> "err " ^ m | IPanic l -> "panic at " ^ l | _ -> cls_name impl)
           (match model with POk m -> sexp_of_cmd m | m -> pres_name m) text in
     let names = List.map (fun s -> C05.sym_name (expr_of_sexp s)) st @
                 (match c with CDeclareConst s | CDefineConst (s, _) -> (match s with BVSymbol (n, _) | ArraySymbol (n, _, _) -> [n] | _ -> []) | _ -> []) in
@@ -373,7 +369,7 @@ let handle_cmd id fs =
         | _, IErr _ ->
             if List.exists is_numeral_name names then "cmd:numeral-named-symbol-hides-index" else "cmd-rejected:" ^ kind
         | _, _ -> "cmd-wrong:" ^ kind in
-      result ~id ~status:"fail" ~key ~detail:(Printf.sprintf "text=%s impl=%s%s" text (match impl with IOk x -> sexp_of_cmd x | IErr m -> "err " ^ m | _ -> cls_name impl)
+      result ~id ~status:"fail" ~key ~detail:(Printf.sprintf "text=%s impl=%s%s" text (match impl with IOk x -> sexp_of_cmd x | IErr m -> "err " ^ m | IPanic l -> "panic at " ^ l | _ -> cls_name impl)
                                                 (if corr then "" else " ALSO-DIFF " ^ corr_detail)) ()
     end
   end
@@ -390,7 +386,7 @@ let handle_cmdtext id fs =
     | IErr _, PErr | IPanic _, PPanic -> true
     | _ -> false in
   let corr_detail = if corr then "" else
-      Printf.sprintf "impl=%s model=%s text=%s" (match impl with IOk x -> sexp_of_cmd x | IErr m -> "err " ^ m | _ -> cls_name impl)
+      Printf.sprintf "impl=%s model=%s text=%s" (match impl with IOk x -> sexp_of_cmd x | IErr m -> "err " ^ m | IPanic l -> "panic at " ^ l | _ -> cls_name impl)
         (match model with POk m -> sexp_of_cmd m | m -> pres_name m) text in
   (* oracle: text that is not one well-formed S-expression (judged by the reference front end) must be answered with an error;
      a well-formed command accepted by the reference must not make the reader panic *)
@@ -403,12 +399,13 @@ let handle_cmdtext id fs =
              (match first_sexp text with
               | Some _ -> `Ok "cmdtext:trailing-material-ignored"
               | None -> `Fail ("malformed-command-accepted:" ^ origin, sexp_of_cmd c))
-         | IPanic l -> `Fail (panic_key "malformed" l, "")
+         | IPanic l -> `Fail (panic_key "malformed" l, "panic at " ^ l)
          | _ -> `Ok "cmdtext:malformed:err")
     | Some t ->
         (match cmd_check (ctx_of st) t, impl with
-         | Some _, IPanic l -> `Fail (panic_key "wellformed" l, "")
+         | Some _, IPanic l -> `Fail (panic_key "wellformed" l, "panic at " ^ l)
          | Some _, _ -> `Ok ("cmdtext:accepted-by-reference:" ^ cls_name impl)
+         | None, IPanic l -> `Fail (panic_key "illsorted" l, "panic at " ^ l)
          | None, _ -> `Ok ("cmdtext:rejected-by-reference:" ^ cls_name impl))
   in
   match verdict with
@@ -444,20 +441,23 @@ let handle_script id fs =
   let ncmds = List.length (List.filter (function IOk _ -> true | _ -> false) impl_steps) in
   let expected = match Sexp.field_opt "ncmds" fs with Some [n] -> int_of_n (num n) | _ -> 0 in
   let detail = Printf.sprintf "lines=%s impl=[%s]%s" (String.concat " / " (List.map c2s lines)) show_i (if same then "" else " ALSO-DIFF " ^ corr_detail) in
+  let originals = List.map (fun c -> fst (C05.cmd_of_sexp c)) (match Sexp.field_opt "cmds" fs with Some l -> l | None -> []) in
+  (* the last command was replaced by a malformed variant (older case files: no originals recorded then) *)
+  let mutated = match Sexp.field_opt "mutated" fs with Some [n] -> int_of_n (num n) <> 0 | _ -> originals = [] in
+  let intact = not mutated && List.length originals = expected in
+  let names_ok = all_names_ok st &&
+                 List.for_all (fun c -> match c with
+                     | CDeclareConst s | CDefineConst (s, _) -> (match s with BVSymbol (n, _) | ArraySymbol (n, _, _) -> name_ok n | _ -> true)
+                     | CSetOption (_, v) | CSetInfo (_, v) -> symbol_name (escape_id v) = Some v
+                     | _ -> true) originals in
+  let detail = detail ^ (match last with IPanic l -> " PANIC " ^ l | IErr m -> " ERR " ^ m | _ -> "") in
   match last with
-  | IHang -> result ~id ~status:"fail" ~key:"read_command:hang-at-end-of-input" ~detail ()
-  | IPanic l -> result ~id ~status:"fail" ~key:(panic_key "read_command" l) ~detail ()
+  | IHang -> result ~id ~status:"fail" ~key:(if intact && names_ok then "read_command:intact-script:hang" else "read_command:hang-at-end-of-input") ~detail ()
+  | IPanic l ->
+      (* a script made of the writer's own output, names expressible: no excuse (the malformed-text finding does not cover it) *)
+      result ~id ~status:"fail" ~key:(if intact && names_ok then "read_command:intact-script:panic:" ^ panic_class l else panic_key "read_command" l) ~detail ()
   | _ ->
-      let originals = List.map (fun c -> fst (C05.cmd_of_sexp c)) (match Sexp.field_opt "cmds" fs with Some l -> l | None -> []) in
-      (* the last command was replaced by a malformed variant (older case files: no originals recorded then) *)
-      let mutated = match Sexp.field_opt "mutated" fs with Some [n] -> int_of_n (num n) <> 0 | _ -> originals = [] in
-      let intact = not mutated && List.length originals = expected in
       let delivered = List.filter_map (function IOk c -> Some c | _ -> None) impl_steps in
-      let names_ok = all_names_ok st &&
-                     List.for_all (fun c -> match c with
-                         | CDeclareConst s | CDefineConst (s, _) -> (match s with BVSymbol (n, _) | ArraySymbol (n, _, _) -> name_ok n | _ -> true)
-                         | CSetOption (_, v) | CSetInfo (_, v) -> symbol_name (escape_id v) = Some v
-                         | _ -> true) originals in
       let altered =
         List.length delivered = List.length originals && originals <> [] &&
         not (List.for_all2 (fun d o ->
@@ -482,7 +482,7 @@ let handle_gua id fs =
     | _ -> false in
   let show l = String.concat " " (List.map show_expr l) in
   let corr_detail = if corr then "" else
-      Printf.sprintf "impl=%s model=%s response=%s" (match impl with IOk x -> show x | IErr m -> "err " ^ m | _ -> cls_name impl)
+      Printf.sprintf "impl=%s model=%s response=%s" (match impl with IOk x -> show x | IErr m -> "err " ^ m | IPanic l -> "panic at " ^ l | _ -> cls_name impl)
         (match model with POk m -> show m | m -> pres_name m) response in
   let g = ctx_of st in
   let verdict =
@@ -497,7 +497,7 @@ let handle_gua id fs =
                               match seval (smodel_of g rho) t with Some v -> expr_matches_sval rho e v | None -> false) [1; 2; 3]) es ts in
              if ok then `Ok "gua:ok" else `Fail ("gua-wrong", show es)
          | IErr m -> `Fail ("gua-rejected", m)
-         | IPanic l -> `Fail (panic_key "gua" l, "")
+         | IPanic l -> `Fail (panic_key "gua" l, "panic at " ^ l)
          | _ -> `Ok "?")
     | Some _ -> `Ok ("gua:not-a-list-of-known-terms:" ^ cls_name impl)
     | None ->
@@ -510,7 +510,7 @@ let handle_gua id fs =
                                           | Some v -> expr_matches_sval (env_of_seed 1) e v | None -> false) es ts ->
                   `Ok "gua:trailing-material-ignored"
               | _ -> `Fail ("gua-malformed-accepted", show es))
-         | IPanic l -> `Fail (panic_key "malformed" l, "")
+         | IPanic l -> `Fail (panic_key "malformed" l, "panic at " ^ l)
          | _ -> `Ok "gua:malformed:err")
   in
   match verdict with
